@@ -149,7 +149,12 @@ def build_items(case):
                 m = {nm: rng.choice([5, 40, 100, 200]) for nm in rng.sample(names, rng.randint(1, 4))}
                 cfg = "string_configs:\n  strname_to_size:\n" + "".join("    %s: %d\n" % (k, v) for k, v in sorted(m.items()))
             flags = [[], ["-l"], ["-z"], ["-s", "64"], ["-D"], ["-w", "-z"]][i % 6]
-            items.append({"kind": "cli", "text": text, "cfg": cfg, "flags": flags})
+            it = {"kind": "cli", "text": text, "cfg": cfg, "flags": flags}
+            if i % 3 == 2:
+                # output on standard output, input file names that do and do not make a legal procedure name
+                it["to_stdout"] = True
+                it["stem"] = ["prog", "star trek", "demo.v2", "ok-name_1", "9", "x y"][(i // 3) % 6]
+            items.append(it)
     else:
         from ..img import workload
 
